@@ -200,9 +200,53 @@ FIXED = \
     , [['-T', None]] + W2
     ]
 
+# ---- boundary stratum: argument lists that sit exactly on a validation boundary (any of the three outcomes
+# is acceptable, a traceback or a non-finite number is not)
+E1 = [['-f', '7.1'], ['-w', '6,0,0,0,0,0,10,0.01'], ['-w', '4,0,0,10,6,0,10,0.01']]       # 9 pulses, tags 1 and 2
+EDGE = \
+    [ E1 + [['--frequency-steps', '3'], ['--frequency-increment', '-3.55']]                       # sweep ends exactly at 0 MHz
+    , E1 + [['--frequency-steps', '2'], ['--frequency-increment', '-7.1']]
+    , E1 + [['--frequency-steps', '3'], ['--frequency-increment', '-3.5']]                        # ends just above 0
+    , E1 + [['--frequency-steps', '1'], ['--frequency-increment', '-100']]
+    , E1 + [['--frequency-steps', '0']]
+    , E1 + [['--excitation-pulse', '9']], E1 + [['--excitation-pulse', '10']], E1 + [['--excitation-pulse', '0']]
+    , E1 + [['--excitation-pulse', '5,1']], E1 + [['--excitation-pulse', '6,1']], E1 + [['--excitation-pulse', '4,2']], E1 + [['--excitation-pulse', '5,2']]
+    , E1 + [['--excitation-pulse', '1,3']], E1 + [['--excitation-pulse', '1,0']]
+    , E1 + [['-l', '50'], ['--attach-load', '1,9']], E1 + [['-l', '50'], ['--attach-load', '1,10']], E1 + [['-l', '50'], ['--attach-load', '1,0']]
+    , E1 + [['-l', '50'], ['--attach-load', '1,5,1']], E1 + [['-l', '50'], ['--attach-load', '1,6,1']], E1 + [['-l', '50'], ['--attach-load', '1,all,3']]
+    , E1 + [['-l', '50'], ['--attach-load', '2,1']], E1 + [['-l', '50'], ['--attach-load', '0,1']], E1 + [['-l', '50']]
+    , E1 + [['-l', '50'], ['-l', '75'], ['--attach-load', '2,1'], ['--attach-load', '1,1']]
+    , E1 + [['--skin-effect-conductivity', '5.8e7,2']], E1 + [['--skin-effect-conductivity', '5.8e7,3']], E1 + [['--skin-effect-resistivity', '1.7e-8,3']]
+    , E1 + [['--insulation-load', '0.02,2.5,3']], E1 + [['--insulation-load', '0.01,2.5']], E1 + [['--insulation-load', '0.02,1']], E1 + [['--insulation-load', '0.009,2.5']]
+    , E1 + [['--taper-wire', '1,3,1,1']], E1 + [['--taper-wire', '1,3,2,1']], E1 + [['--taper-wire', '1,1,10']], E1 + [['--taper-wire', '1,1,0.025']]
+    , E1 + [['--taper-wire', '1,1,1.6666666666666667']], E1 + [['--taper-wire', '3,1']], E1 + [['--taper-wire', '1,4']], E1 + [['--taper-wire', '1,0']]
+    , E1 + [['--theta', '0,10,0']], E1 + [['--phi', '0,10,0']], E1 + [['--theta', '0,0,3']], E1 + [['--theta', '90,0,1'], ['--phi', '0,0,1']]
+    , E1 + [['--near-field', '5,5,5,1,1,1,0,1,1']], E1 + [['--near-field', '5,5,5,0,0,0,2,2,2']], E1 + [['--near-field', '0,0,5,1,1,1,1,1,1']]
+    , E1 + [['--near-field', '0,0,10,1,1,1,1,1,1']], E1 + [['--near-field', '0.01,0,5,1,1,1,1,1,1']]
+    , E1 + [['--medium', '0,0,0'], ['--near-field', '5,5,0,1,1,1,1,1,1']], E1 + [['--medium', '0,0,0'], ['--near-field', '5,5,-1,1,1,1,1,1,1']]
+    , E1 + [['--medium', '1,0,0']], E1 + [['--medium', '0,0,0'], ['--medium', '5,0.001,-1']], E1 + [['--medium', '13,0.005,0,0'], ['--medium', '5,0.001,-1']]
+    , E1 + [['--medium', '13,0.005,0,20'], ['--medium', '5,0.001,0']], E1 + [['--medium', '13,0.005,0,20'], ['--medium', '5,0.001,1']]
+    , E1 + [['--medium', '13,0.005,0,20'], ['--medium', '5,0.001,-1'], ['--radial-count', '0'], ['--radial-radius', '0.001']]
+    , E1 + [['--medium', '13,0.005,0,20'], ['--medium', '5,0.001,-1'], ['--radial-count', '1'], ['--radial-radius', '0.001']]
+    , [['-f', '7.1'], ['-w', '6,0,0,0,0,0,10,0.01'], ['-w', '4,0,0,0,6,0,0,0.01'], ['--medium', '0,0,0']]          # second wire lies in the ground plane
+    , [['-f', '7.1'], ['-w', '6,0,0,0,0,0,10,0.01'], ['-w', '4,0,0,10,6,0,-0.001,0.01'], ['--medium', '0,0,0']]
+    , [['-f', '7.1'], ['-w', '6,0,0,0,0,0,10,1.6666666666666667']], [['-f', '7.1'], ['-w', '6,0,0,0,0,0,10,0']], [['-f', '7.1'], ['-w', '1,0,0,0,0,0,10,0.01']]
+    , [['-f', '7.1'], ['-w', '6,0,0,0,0,0,0,0.01']], [['-f', '7.1'], ['-w', '6,0,0,0,0,0,10,0.01'], ['-w', '6,0,0,0,0,0,10,0.01']]
+    , [['-f', '7.1'], ['-w', '6,0,0,0,0,0,10,0.01'], ['-w', '3,0,0,0,0,0,5,0.01']], [['-f', '7.1'], ['-a', '4,2,0,360,0.01']], [['-f', '7.1'], ['-a', '4,2,0,0,0.01']]
+    , [['-f', '7.1'], ['-a', '4,2,0,720,0.01']], [['-f', '7.1'], ['-a', '4,2,0,180,0.01'], ['--medium', '0,0,0']], [['-f', '7.1'], ['-a', '4,2,0,181,0.01'], ['--medium', '0,0,0']]
+    , [['-f', '7.1'], ['--helix', '8,0,1,0.01,1,1']], [['-f', '7.1'], ['--helix', '8,4,0,0.01,1,1']], [['-f', '7.1'], ['--helix', '8,4,1,0.01,0,0']]
+    , [['-f', '7.1'], ['--helix', '8,4,1,0.01,1,1'], ['--medium', '0,0,0']], [['-f', '7.1'], ['--helix', '8,-4,1,0.01,1,1'], ['--medium', '0,0,0']]
+    , E1 + [['--geo-scale', '1e-9']], E1 + [['--geo-scale', '1e9']], E1 + [['--geo-translate', '1,0,0,-10'], ['--medium', '0,0,0']], E1 + [['--geo-translate', '1,0,0,-10.001'], ['--medium', '0,0,0']]
+    , E1 + [['--geo-rotate', '1,180,0,0'], ['--medium', '0,0,0']], E1 + [['--geo-rotate', '1,90,0,0'], ['--medium', '0,0,0']]
+    , E1 + [['--ff-distance', '0'], ['--option', 'far-field-absolute']], E1 + [['--ff-power', '0'], ['--ff-distance', '10'], ['--option', 'far-field-absolute']]
+    , E1 + [['--nf-power', '0'], ['--near-field', '5,5,5,1,1,1,1,1,1']], E1 + [['--excitation-voltage', '0']], E1 + [['--excitation-voltage', '0'], ['--near-field', '5,5,5,1,1,1,1,1,1'], ['--nf-power', '10']]
+    , E1 + [['--excitation-pulse', '2'], ['--excitation-pulse', '2']], E1 + [['--excitation-pulse', '2'], ['--excitation-pulse', '3'], ['--excitation-voltage', '1'], ['--excitation-voltage', '-1']]
+    , E1 + [['--excitation-pulse', '2'], ['--excitation-voltage', '1'], ['--excitation-voltage', '2']]
+    ]
+
 def plan (tier, seed):
     n = 3000 if tier == 'quick' else 100000
-    return [dict (kind = 'fixed', k = k) for k in range (len (FIXED))] + enum_cases () + ladder_cases (tier) + [dict (i = i, seed = seed) for i in range (n)]
+    return [dict (kind = 'fixed', k = k) for k in range (len (FIXED))] + [dict (kind = 'edge', k = k) for k in range (len (EDGE))] + enum_cases () + ladder_cases (tier) + [dict (i = i, seed = seed) for i in range (n)]
 # end def plan
 
 def base (rng):
@@ -423,6 +467,11 @@ def make (c):
         return make_enum (c)
     if c.get ('kind') == 'ladder':
         return make_ladder (c)
+    if c.get ('kind') == 'edge':
+        g = [list (x) for x in EDGE [c ['k']]]
+        if not any (x [0] == '--excitation-pulse' for x in g):
+            g.append (['--excitation-pulse', '2'])
+        return dict (groups = g, mutated = ['edge%d' % c ['k']], kind = 'edge')
     if c.get ('kind') == 'fixed':
         return dict (groups = [list (g) for g in FIXED [c ['k']]], mutated = ['fixed%d' % c ['k']], kind = 'fixed')
     rng = np.random.default_rng ([c ['seed'], 20, c ['i']])
